@@ -205,7 +205,7 @@ def env_writer_write(ex, args, how):
         failed = bool(script[k]) if k < len(script) else False
     elif allow_fail and (budget is None or ex.out.get('faults_used', 0) < budget):
         fail = ex.fresh('wfail', 'bool')
-        failed = ex.choose([z3.Not(fail), fail]) == 1
+        failed = ex.choose([z3.Not(fail), fail], free=True) == 1
     else:
         failed = False
     if failed:
